@@ -696,14 +696,24 @@ class FnTypes:
         r = self.model.resolve_expr_static(self.fn.module, e)
         if r is None:
             if isinstance(e, ast.Name):
-                return self.local_class_tuple(e.id)
-            return None
+                return self.local_class_tuple(e.id) or self._const_class_tuple(e)
+            return self._const_class_tuple(e)
         if r[0] == "class":
             return [r[1].name]
         if r[0] == "builtin":
             return [r[1]]
         if r[0] == "ext":
             return [r[1]]
+        return self._const_class_tuple(e)
+
+    def _const_class_tuple(self, e: ast.expr) -> Optional[List[str]]:
+        """a module-level or class-level constant holding a tuple of classes (`_SKIPPED = (A, B)`, `self._SKIPPED`)"""
+        try:
+            cv = self.model.const_eval(self.fn.module, e, self.fn.cls)
+        except (ValueError, KeyError, AttributeError):
+            return None
+        if isinstance(cv, (tuple, list)) and cv and all(hasattr(x, "kind") and getattr(x, "kind") in ("class", "builtin", "ext") for x in cv):
+            return [str(x.name).split(".")[-1] for x in cv]
         return None
 
     def local_class_tuple(self, name: str) -> Optional[List[str]]:
